@@ -120,6 +120,9 @@ func NewFunc(f interface{}, opts ...Arg) (*Func, error) {
 	if k := ft.Kind(); k != reflect.Func {
 		return nil, fmt.Errorf("fn should be a function, got %s", k)
 	}
+	if fv.IsNil() {
+		return nil, fmt.Errorf("fn should be a function, got a nil %s", ft)
+	}
 
 	inTyp, err := newValueSet(ft.NumIn(), ft.In)
 	if err != nil {
